@@ -8,6 +8,7 @@ import (
 	"math/bits"
 	"strconv"
 	"unicode/utf8"
+	"verif/internal/coop"
 
 	"golang.org/x/mod/sumdb/tlog"
 
@@ -220,6 +221,116 @@ func (a *aliasReader) ReadHashes(ix []int64) ([]tlog.Hash, error) {
 	a.memo[k] = out
 	a.memoCopy[k] = append([]tlog.Hash(nil), out...)
 	return out, nil
+}
+
+// Overlap explores every interleaving (switching at the HashReader callbacks) of two calls out of
+// TreeHash / ProveRecord / ProveTree / StoredHashes on the same log, each time after a history of calls
+// that failed (a reader that returns an error), and checks every result against the clean log. Package
+// level scratch state shared between overlapping calls, or left behind by failed ones, shows up here.
+// It is shared with C03.
+func Overlap(r *fw.Run) {
+	l := fw.NewLocal()
+	defer r.Merge(l)
+	N := 13
+	lg, err := tlogx.Build(tlogx.Pattern(0, N))
+	if err != nil {
+		r.Violation("overlap:build", err.Error(), nil)
+		return
+	}
+	type call struct {
+		name string
+		f    func(rd tlog.HashReader) string
+	}
+	var calls []call
+	for _, n := range []int64{5, 7, 12, 13} {
+		n := n
+		calls = append(calls, call{fmt.Sprintf("TreeHash(%d)", n), func(rd tlog.HashReader) string {
+			h, err := tlog.TreeHash(n, rd)
+			if err != nil || h != lg.Root(int(n)) {
+				return fmt.Sprintf("TreeHash(%d) = %v, %v", n, h, err)
+			}
+			return ""
+		}})
+		for _, m := range []int64{0, 3, n - 1} {
+			m := m
+			calls = append(calls, call{fmt.Sprintf("ProveRecord(%d,%d)", n, m), func(rd tlog.HashReader) string {
+				p, err := tlog.ProveRecord(n, m, rd)
+				if err != nil || tlog.CheckRecord(p, n, lg.Root(int(n)), m, tlog.Hash(lg.Ref.Leaves[m])) != nil {
+					return fmt.Sprintf("ProveRecord(%d,%d) gives a proof that does not verify (err=%v)", n, m, err)
+				}
+				return ""
+			}})
+			calls = append(calls, call{fmt.Sprintf("ProveTree(%d,%d)", n, m+1), func(rd tlog.HashReader) string {
+				p, err := tlog.ProveTree(n, m+1, rd)
+				if err != nil || tlog.CheckTree(p, n, lg.Root(int(n)), m+1, lg.Root(int(m+1))) != nil {
+					return fmt.Sprintf("ProveTree(%d,%d) gives a proof that does not verify (err=%v)", n, m+1, err)
+				}
+				return ""
+			}})
+		}
+	}
+	failing := tlog.HashReaderFunc(func(ix []int64) ([]tlog.Hash, error) { return nil, fmt.Errorf("injected read error") })
+	histories := [][]string{nil, {"ProveTree"}, {"ProveRecord"}, {"TreeHash"}, {"ProveTree", "ProveTree"}, {"StoredHashes"}}
+	r.Bounds["overlapping_calls"] = fmt.Sprintf("all ordered pairs of %d calls on a %d-record log x %d histories of failed calls, every interleaving at reader callbacks", len(calls), N, len(histories))
+	for _, hist := range histories {
+		for _, a := range calls {
+			for _, b := range calls {
+				hist, a, b := hist, a, b
+				l.States++
+				runs, _ := coop.Explore(func() ([]func(func()), func([]int, any)) {
+					for _, h := range hist {
+						switch h {
+						case "ProveTree":
+							tlog.ProveTree(13, 5, failing)
+						case "ProveRecord":
+							tlog.ProveRecord(13, 5, failing)
+						case "TreeHash":
+							tlog.TreeHash(11, failing)
+						default:
+							tlog.StoredHashes(11, lg.Records[11], failing)
+						}
+					}
+					var ra, rb string
+					mk := func(c call, out *string) func(func()) {
+						return func(yield func()) {
+							rd := tlog.HashReaderFunc(func(ix []int64) ([]tlog.Hash, error) {
+								// a reader takes time: other calls may run before it looks at its argument,
+								// while it works, and before it returns
+								yield()
+								first := append([]int64(nil), ix...)
+								yield()
+								hs, err := lg.ReadHashes(ix)
+								for k := range first {
+									if k < len(ix) && first[k] != ix[k] {
+										return nil, fmt.Errorf("the index list handed to the reader changed while the reader was running")
+									}
+								}
+								yield()
+								return hs, err
+							})
+							*out = c.f(rd)
+						}
+					}
+					return []func(func()){mk(a, &ra), mk(b, &rb)}, func(schedule []int, pan any) {
+						msg := ""
+						switch {
+						case pan != nil:
+							msg = fmt.Sprintf("panic: %v", pan)
+						case ra != "":
+							msg = ra
+						case rb != "":
+							msg = rb
+						}
+						if msg != "" {
+							r.Violation(fmt.Sprintf("overlap:%v:%s:%s", hist, a.name, b.name), fmt.Sprintf("after failed calls %v, %s overlapping with %s (interleaving %v at the reader callbacks): %s", hist, a.name, b.name, schedule, msg), caseT{Kind: "overlap", Text: fmt.Sprintf("%v|%s|%s|%v", hist, a.name, b.name, schedule)})
+						}
+					}
+				}, 200)
+				l.Execs += int64(runs)
+				l.Transitions += int64(runs)
+			}
+		}
+	}
 }
 
 // Aliasing is shared with C03 (the provers are part of both properties).
@@ -494,6 +605,8 @@ func Run(r *fw.Run) {
 	// hashes a clean build of that log has at those positions.
 	failingAppends(r)
 
+	Overlap(r)
+
 	// virtual huge logs: a log whose records are all identical has one hash per level, so a HashReader for
 	// a log of up to 2^62 records and the RFC 6962 tree hash of any size can be computed without storing it
 	hugeLogs(r)
@@ -677,6 +790,8 @@ func Replay(r *fw.Run, raw json.RawMessage) {
 		history(r, c.Pattern, n+1, n+1)
 	case "aliasing":
 		aliasing(r)
+	case "overlap":
+		Overlap(r)
 	case "huge":
 		hugeLogs(r)
 	case "failing":
